@@ -156,7 +156,7 @@ Lemma wf_bind k l σ :
 Proof.
   intros [W1 W2] Hl Hfree.
   assert (E : forall x, x <> NLocal k -> loc_of (set_locals ((k, l) :: locals σ) σ) x = loc_of σ x).
-  { intros [k'| | |] Hx; simpl; auto. destruct (N.eqb_spec k' k); [subst; congruence | auto]. }
+  { intros [k'| | | |] Hx; simpl; auto. destruct (N.eqb_spec k' k); [subst; congruence | auto]. }
   assert (Ek : loc_of (set_locals ((k, l) :: locals σ) σ) (NLocal k) = Some l).
   { simpl. rewrite N.eqb_refl. auto. }
   split.
@@ -166,7 +166,7 @@ Proof.
     + rewrite E in H; eauto. intro; subst. simpl in Ex. rewrite N.eqb_refl in Ex. discriminate.
   - intros x y l' H1 H2.
     assert (D : forall z, {z = NLocal k} + {z <> NLocal k}).
-    { intros [k'| | |]; try (right; congruence). destruct (N.eq_dec k' k); [left | right]; congruence. }
+    { intros [k'| | | |]; try (right; congruence). destruct (N.eq_dec k' k); [left | right]; congruence. }
     destruct (D x), (D y); subst; auto.
     + rewrite Ek in H1. rewrite E in H2 by auto. inversion H1; subst. exfalso. eapply Hfree; eauto.
     + rewrite Ek in H2. rewrite E in H1 by auto. inversion H2; subst. exfalso. eapply Hfree; eauto.
@@ -219,9 +219,10 @@ Proof.
     + specialize (W1 (NLocal k) l H). lia.
     + specialize (W1 (NGlobal k) l H). lia.
     + discriminate.
+    + discriminate.
     + apply nth_error_seq in H. lia.
   - intros x y l H1 H2.
-    destruct x as [k| k| |j], y as [k'| k'| |j']; simpl in H1, H2; try discriminate;
+    destruct x as [k| k| | |j], y as [k'| k'| | |j']; simpl in H1, H2; try discriminate;
       try (apply (W2 _ _ l); simpl; assumption).
     + apply nth_error_seq in H2. specialize (W1 (NLocal k) l H1). lia.
     + apply nth_error_seq in H2. specialize (W1 (NGlobal k) l H1). lia.
@@ -254,4 +255,5 @@ Proof.
   - rewrite Hl. destruct (lookup k (locals σ)) eqn:E; auto. apply Hc. simpl. auto.
   - rewrite Hgl. destruct (lookup k (globals σ)) eqn:E; auto. apply Hc. simpl. auto.
   - unfold header_val. rewrite Hh. reflexivity.
+  - unfold field_val, hdr_text. rewrite Hh. reflexivity.
 Qed.
